@@ -198,8 +198,7 @@ DRV_CMD(vol_big, "vol.big") {
   else if (pre == "-") state = "CREATED";
   else { struct stat st; stat(out.c_str(), &st); state = (static_cast<uint64_t>(st.st_size) == dataArg(pre).size() && readFile(out) == dataArg(pre)) ? "same" : "CHANGED"; }
   if (!ok) return "err dest=" + state;
-  struct stat st; stat(out.c_str(), &st);
-  std::string r = "ok " + std::to_string(st.st_size);
+  std::string r = "ok";          // C20 is about the refusals; what a successful archive looks like is C01/C02
   for (auto& p : paths) unlink(p.c_str());
   unlink(out.c_str());
   return r;
